@@ -534,6 +534,20 @@ def _eigvalsh(a, *args, **kw):
     return SymTensor(A.wrap(A.plain(r) if isinstance(r, A.SymArray) else r, np.float64), torch.float64)
 
 
+@handler('any')
+def _any(a, *args, **kw):
+    return np.any(a) if not args and not kw else np.any(a, axis=args[0] if args else _kw(kw).get('dim'))
+
+
+@handler('nonzero', noshadow=True)
+def _nonzero(a, **kw):
+    """data-dependent shape: every entry's truth value is decided (forks under the explorer), the index tensor is concrete"""
+    p = A.plain(a) if isinstance(a, A.SymArray) else np.asarray(a)
+    conc = np.array([bool(S.as_sb(e)) if A.is_sym_scalar(e) else bool(e) for e in p.reshape(-1)], dtype=bool).reshape(p.shape)
+    with torch._C.DisableTorchFunctionSubclass():
+        return torch.nonzero(torch.from_numpy(conc))
+
+
 @handler('linalg_norm', 'norm', 'linalg_vector_norm', 'linalg_matrix_norm')
 def _norm(a, *args, **kw):
     kw = _kw(kw)
